@@ -30,3 +30,6 @@ func c01WithMapOrders(c *core.Ctx, dir string, k c01Case) {
 	}
 	c.Add("map_orders_run_for_multi_table_statements", n+1)
 }
+
+// setProcOrder: the order of every map range inside csvq for the code run in this process ("" ascending, "rev" descending)
+func setProcOrder(spec string, on bool) { vrt.SetProcOrder(spec, on) }
